@@ -21,10 +21,22 @@ package deviceshare
 //                                                   preemption dry-run: PreFilter, RemovePod for every victim,
 //                                                   Filter; only the verdict is observed, nothing is committed
 //  11 kind                                          node labels: 0 none, 1 gpu-model H800 + gpu-partition-policy
-//                                                   Honor, 2 gpu-model H800 (built-in Hopper partition table)
+//                                                   Honor, 2 gpu-model H800 (built-in Hopper partition table);
+//                                                   + 4: the plugin's scoring strategy is MostAllocated (the scorer
+//                                                   is built from the args the way New does) instead of LeastAllocated
 //  12 pod                                           like 5, but the delete is delivered as an informer tombstone
 //                                                   (cache.DeletedFinalStateUnknown by value, as after a re-list)
 //  13                                               like 7, Device CR deletion delivered as a tombstone
+//  14 pod koordgpu core ratio shared nvidia rdma fpga hint n (type minor v0 v1 v2){n}
+//                                                   a scheduling cycle is opened: PreFilter + Filter; the pod carries the
+//                                                   device-allocated annotation given (n > 0), and with hint = 1 the cycle
+//                                                   state holds a scheduling hint naming this plugin, which makes the
+//                                                   annotation a DESIGNATED allocation (hinted re-schedule / fail-over path);
+//                                                   only the verdict is observed; the cycle stays open iff it is 0
+//  15 pod                                           Filter once more with the open cycle's state (another candidate
+//                                                   evaluation of this node in the same cycle)
+//  16 pod                                           Reserve of the open cycle (Unreserve by the framework if it fails):
+//                                                   whatever happened to the node since Filter, code [allocations]
 // types: 0 gpu (slots gpu-core, gpu-memory-ratio, gpu-memory), 1 rdma (slot rdma), 2 fpga (slot fpga);
 // a slot value -1 means "key absent".
 // observable = per op: code [allocations] summary   (see vtC07Summary)
@@ -47,6 +59,8 @@ import (
 
 	apiext "github.com/koordinator-sh/koordinator/apis/extension"
 	schedulingv1alpha1 "github.com/koordinator-sh/koordinator/apis/scheduling/v1alpha1"
+	schedulerconfig "github.com/koordinator-sh/koordinator/pkg/scheduler/apis/config"
+	"github.com/koordinator-sh/koordinator/pkg/scheduler/frameworkext/hinter"
 )
 
 const vtC07Node = "n00"
@@ -63,6 +77,7 @@ var (
 	vtC07Plugin   *Plugin
 	vtC07NodeInfo fwktype.NodeInfo
 	vtC07Unknown  int64
+	vtC07Scorers  [2]*resourceAllocationScorer // LeastAllocated (default args), MostAllocated
 )
 
 func vtC07TypeIdx(t schedulingv1alpha1.DeviceType) int {
@@ -229,6 +244,12 @@ type vtC07Rec struct {
 }
 
 func vtC07SetKind(kind int64) {
+	// + 4: the plugin is configured with the MostAllocated scoring strategy
+	vtC07Plugin.scorer = vtC07Scorers[0]
+	if kind >= 4 {
+		vtC07Plugin.scorer = vtC07Scorers[1]
+		kind -= 4
+	}
 	node := vtC07NodeInfo.Node()
 	node.Labels = map[string]string{}
 	if kind == 1 || kind == 2 {
@@ -249,6 +270,7 @@ func vtC07Exec(in []int64) []int64 {
 	cache.onDeviceAdd(lastDevice)
 	live := map[int64]*vtC07Rec{}                // pods the environment considers bound, with their annotation
 	last := map[int64]apiext.DeviceAllocations{} // last annotation of pods that are gone (duplicate deletes)
+	open := map[int64]*vtC07Rec{}                // scheduling cycles that passed Filter and were not reserved yet
 	var obs []int64
 	nops := int(in[0])
 	pos := 1
@@ -422,6 +444,86 @@ func vtC07Exec(in []int64) []int64 {
 			vtC07SetKind(in[pos])
 			pos++
 			obs = append(obs, 0)
+		case 14:
+			id := in[pos]
+			req := in[pos+1 : pos+8]
+			hint := in[pos+8] != 0
+			pos += 9
+			npos := pos
+			nal := int(in[npos])
+			allocs := vtC07DecodeAllocs(in, &pos)
+			if _, ok := live[id]; ok {
+				obs = append(obs, -1)
+				break
+			}
+			pod := vtC07ReqPod(id, req)
+			if nal > 0 {
+				if err := apiext.SetDeviceAllocations(pod, allocs); err != nil {
+					panic(err)
+				}
+			}
+			cs := framework.NewCycleState()
+			if hint {
+				hinter.SetSchedulingHintState(cs, &hinter.SchedulingHintStateData{
+					PreFilterNodes: []string{vtC07Node}, Extensions: map[string]interface{}{Name: nil}})
+			}
+			ctx := context.TODO()
+			_, st := pl.PreFilter(ctx, cs, pod, nil)
+			if st.IsSuccess() {
+				st = pl.Filter(ctx, cs, pod, vtC07NodeInfo)
+			}
+			if st.IsSuccess() {
+				open[id] = &vtC07Rec{cycle: cs, pod: pod}
+			} else {
+				delete(open, id)
+			}
+			obs = append(obs, vtC07StatusCode(st))
+		case 15:
+			id := in[pos]
+			pos++
+			r, ok := open[id]
+			if _, bound := live[id]; bound || !ok {
+				obs = append(obs, -1)
+				break
+			}
+			st := pl.Filter(context.TODO(), r.cycle, r.pod, vtC07NodeInfo)
+			if !st.IsSuccess() {
+				delete(open, id)
+			}
+			obs = append(obs, vtC07StatusCode(st))
+		case 16:
+			id := in[pos]
+			pos++
+			r, ok := open[id]
+			if _, bound := live[id]; bound || !ok {
+				obs = append(obs, -1)
+				break
+			}
+			delete(open, id)
+			ctx := context.TODO()
+			st := pl.Reserve(ctx, r.cycle, r.pod, vtC07Node)
+			obs = append(obs, vtC07StatusCode(st))
+			var res apiext.DeviceAllocations
+			if st.IsSuccess() {
+				state, _ := getPreFilterState(r.cycle)
+				res = state.allocationResult
+			} else {
+				pl.Unreserve(ctx, r.cycle, r.pod, vtC07Node) // what the framework does when a Reserve plugin fails
+			}
+			cnt := 0
+			for _, as := range res {
+				cnt += len(as)
+			}
+			obs = append(obs, int64(cnt))
+			for t, dt := range vtC07Types {
+				for _, a := range res[dt] {
+					obs = append(obs, int64(t), int64(a.Minor))
+					obs = append(obs, vtC07Slots3(t, a.Resources)...)
+				}
+			}
+			if st.IsSuccess() && cnt > 0 {
+				live[id] = &vtC07Rec{allocs: res, scheduled: true, cycle: r.cycle, pod: r.pod}
+			}
 		default:
 			panic("bad op")
 		}
@@ -831,6 +933,9 @@ func (g *vtC07G) sharingCase() (string, []int64) {
 func (g *vtC07G) partitionCase() (string, []int64) {
 	r := g.r
 	kind := g.pick(1, 1, 1, 2)
+	if r.Intn(4) == 0 {
+		kind += 4
+	}
 	ops := [][]int64{{11, kind}}
 	ng := int(g.pick(8, 8, 8, 4, 6))
 	mem := g.pick(16000, 81920)
@@ -909,7 +1014,7 @@ func (g *vtC07G) partitionCase() (string, []int64) {
 			amt := g.pick(100, 100, 50, 0)
 			ops = append(ops, []int64{6, p, 1, 0, m, amt, amt, amt * mem / 100})
 		case k < 95:
-			ops = append(ops, []int64{11, g.pick(0, 1, 2)})
+			ops = append(ops, []int64{11, g.pick(0, 1, 2, 5, 6)})
 		default:
 			ops = append(ops, []int64{4, g.somePod()})
 		}
@@ -919,6 +1024,255 @@ func (g *vtC07G) partitionCase() (string, []int64) {
 		in = append(in, o...)
 	}
 	label := fmt.Sprintf("partition%d", kind)
+	if g.topo {
+		label += "+topo"
+	}
+	return label, in
+}
+
+// "cycles" histories: scheduling cycles whose Filter and Reserve phases are separate operations, with
+// informer events, other pods' cycles and inventory refreshes in between (the scheduler's cache is
+// updated concurrently with a cycle), repeated Filter calls on one cycle state, and pods that carry a
+// designated allocation (annotation + scheduling hint naming the plugin): consistent with the request,
+// too small, on absent / unhealthy devices, with keys missing.
+func (g *vtC07G) cyclesCase() (string, []int64) {
+	r := g.r
+	var ops [][]int64
+	if r.Intn(6) == 0 {
+		ops = append(ops, []int64{11, g.pick(2, 2, 1)})
+	}
+	ng := 1 + r.Intn(4)
+	mem := g.pick(16000, 81920, 1<<34, 1000)
+	mkInv := func(flip bool) []int64 {
+		if !flip || len(g.inv) == 0 {
+			g.inv = nil
+			for m := 0; m < ng; m++ {
+				rec := []int64{0, int64(m), 1, 100, 100, mem, -1, 0}
+				if g.topo {
+					rec[6], rec[7] = int64(m%2), int64(m%2)*2+int64(r.Intn(2))
+				}
+				if r.Intn(10) == 0 {
+					rec[2] = 0
+				}
+				g.inv = append(g.inv, rec)
+			}
+			nr := r.Intn(3)
+			for m := 0; m < nr; m++ {
+				g.inv = append(g.inv, []int64{1, int64(m), 1, 100, -1, -1, -1, 0})
+			}
+			if r.Intn(5) == 0 {
+				g.inv = append(g.inv, []int64{2, 0, 1, 100, -1, -1, -1, 0})
+			}
+		} else {
+			switch r.Intn(4) {
+			case 0:
+				rec := g.inv[r.Intn(len(g.inv))]
+				rec[2] = 1 - rec[2]
+			case 1:
+				i := r.Intn(len(g.inv))
+				g.inv = append(g.inv[:i:i], g.inv[i+1:]...)
+			case 2:
+				for _, rec := range g.inv {
+					if rec[0] == 0 {
+						rec[5] = g.pick(16000, 81920, 8000)
+					}
+				}
+			default:
+				g.inv = nil // all devices gone (the GPU entry of deviceTotal stays, empty)
+			}
+		}
+		o := []int64{1, int64(len(g.inv))}
+		for _, rec := range g.inv {
+			o = append(o, rec...)
+		}
+		return o
+	}
+	if r.Intn(8) != 0 {
+		ops = append(ops, mkInv(false))
+	}
+	minorsOf := func(t int64) []int64 {
+		var ms []int64
+		for _, rec := range g.inv {
+			if rec[0] == t {
+				ms = append(ms, rec[1])
+			}
+		}
+		return ms
+	}
+	var open []int64
+	// a request and, per requested instance, the amounts (v0 v1 v2) a consistent annotation records
+	type shape struct {
+		req   []int64
+		t     int64
+		count int
+		vs    []int64
+	}
+	mkShape := func() shape {
+		req := make([]int64, 7)
+		switch r.Intn(10) {
+		case 0, 1, 2:
+			a := g.pick(10, 20, 30, 50, 50, 70)
+			req[0] = a
+			return shape{req, 0, 1, []int64{a, a, a * mem / 100}}
+		case 3, 4:
+			n := g.pick(1, 1, 2, 3)
+			req[4] = n
+			return shape{req, 0, int(n), []int64{100, 100, mem}}
+		case 5:
+			n := g.pick(1, 2)
+			req[0] = 100 * n
+			return shape{req, 0, int(n), []int64{100, 100, mem}}
+		case 6:
+			c, m := g.pick(10, 30, 50), g.pick(20, 40, 60)
+			req[1], req[2] = c, m
+			return shape{req, 0, 1, []int64{c, m, m * mem / 100}}
+		case 7:
+			m := g.pick(25, 50, 100)
+			req[2] = m
+			return shape{req, 0, 1, []int64{-1, m, m * mem / 100}}
+		case 8:
+			a := g.pick(20, 50, 100, 200)
+			req[5] = a
+			if a > 100 {
+				return shape{req, 1, int(a / 100), []int64{100, -1, -1}}
+			}
+			return shape{req, 1, 1, []int64{a, -1, -1}}
+		default:
+			req[6] = g.pick(50, 100)
+			return shape{req, 2, 1, []int64{req[6], -1, -1}}
+		}
+	}
+	openOp := func() []int64 {
+		p := g.next
+		g.next++
+		sh := mkShape()
+		var al [][]int64
+		style := r.Intn(10)
+		if style < 8 { // an annotation is present
+			ms := minorsOf(sh.t)
+			r.Shuffle(len(ms), func(i, j int) { ms[i], ms[j] = ms[j], ms[i] })
+			for i := 0; i < sh.count; i++ {
+				var m int64
+				if i < len(ms) && r.Intn(12) != 0 {
+					m = ms[i]
+				} else {
+					m = int64(r.Intn(5)) // maybe absent, maybe named twice
+				}
+				vs := append([]int64(nil), sh.vs...)
+				switch r.Intn(12) {
+				case 0:
+					vs[0] = g.pick(5, 10, 0) // designation smaller than the request
+					if sh.t == 0 {
+						vs[1] = vs[0]
+					}
+				case 1:
+					if sh.t == 0 {
+						vs[2] = -1 // gpu-memory to be filled in
+					}
+				case 2:
+					if sh.t == 0 {
+						vs[0] = -1 // no gpu-core recorded
+					}
+				case 3:
+					if sh.t == 0 {
+						vs[2] = g.pick(0, 1, mem/2)
+					}
+				}
+				if sh.t == 0 && vs[1] < 0 {
+					vs[1] = g.pick(50, 100) // bytes-only annotations are outside the model (float64 ratio)
+				}
+				al = append(al, []int64{sh.t, m, vs[0], vs[1], vs[2]})
+			}
+			if r.Intn(10) == 0 { // an entry for a type the pod does not request
+				al = append(al, []int64{g.pick(0, 1, 2), int64(r.Intn(3)), 50, 50, -1})
+				if al[len(al)-1][0] != 0 {
+					al[len(al)-1][3] = -1
+				}
+			}
+			if r.Intn(15) == 0 && len(al) > 0 {
+				al = al[:len(al)-1] // fewer devices designated than requested
+			}
+		}
+		hint := int64(1)
+		if r.Intn(7) == 0 {
+			hint = 0
+		}
+		o := append([]int64{14, p}, sh.req...)
+		o = append(o, hint, int64(len(al)))
+		for _, a := range al {
+			o = append(o, a...)
+		}
+		open = append(open, p)
+		return o
+	}
+	sched := func() []int64 {
+		p := g.next
+		g.next++
+		g.tried = append(g.tried, p)
+		return append([]int64{2, p}, mkShape().req...)
+	}
+	foreign := func() []int64 {
+		p := g.next
+		g.next++
+		g.tried = append(g.tried, p)
+		if len(g.inv) == 0 {
+			return []int64{6, p, 1, 0, 0, 50, 50, -1}
+		}
+		rec := g.inv[r.Intn(len(g.inv))]
+		amt := g.pick(100, 100, 50, 30, 60)
+		vs := []int64{amt, -1, -1}
+		if rec[0] == 0 {
+			vs = []int64{amt, amt, amt * mem / 100}
+		}
+		return []int64{6, p, 1, rec[0], rec[1], vs[0], vs[1], vs[2]}
+	}
+	someOpen := func() int64 {
+		if len(open) > 0 && r.Intn(10) != 0 {
+			return open[r.Intn(len(open))]
+		}
+		return g.somePod()
+	}
+	nfill := r.Intn(4)
+	for j := 0; j < nfill; j++ {
+		if r.Intn(3) == 0 {
+			ops = append(ops, foreign())
+		} else {
+			ops = append(ops, sched())
+		}
+	}
+	nrest := 5 + r.Intn(12)
+	for j := 0; j < nrest; j++ {
+		k := r.Intn(100)
+		switch {
+		case k < 25:
+			ops = append(ops, openOp())
+		case k < 45:
+			p := someOpen()
+			ops = append(ops, []int64{16, p})
+			g.tried = append(g.tried, p)
+		case k < 55:
+			ops = append(ops, []int64{15, someOpen()})
+		case k < 67:
+			ops = append(ops, foreign())
+		case k < 77:
+			ops = append(ops, sched())
+		case k < 87:
+			p := g.somePod()
+			g.drop(p)
+			ops = append(ops, []int64{g.pick(3, 5, 5, 9), p})
+		case k < 94:
+			ops = append(ops, mkInv(true))
+		case k < 96:
+			ops = append(ops, []int64{7})
+		default:
+			ops = append(ops, []int64{4, g.somePod()})
+		}
+	}
+	in := []int64{int64(len(ops))}
+	for _, o := range ops {
+		in = append(in, o...)
+	}
+	label := "cycles"
 	if g.topo {
 		label += "+topo"
 	}
@@ -953,6 +1307,10 @@ func vtC07Gen(r *rand.Rand, i int) (string, []int64) {
 			pos++
 		case 10:
 			pos += 10 + int(in[pos+9])
+		case 14:
+			pos += 11 + 5*int(in[pos+10])
+		case 15, 16:
+			pos += 2
 		default:
 			panic("vtC07Gen: unknown op")
 		}
@@ -962,18 +1320,31 @@ func vtC07Gen(r *rand.Rand, i int) (string, []int64) {
 
 func vtC07GenStyle(r *rand.Rand, i int) (string, []int64) {
 	g := &vtC07G{r: r}
-	g.style = []string{"plain", "plain", "plain", "churn", "churn", "degenerate", "sharing", "partition"}[r.Intn(8)]
+	g.style = []string{"plain", "plain", "plain", "churn", "churn", "degenerate", "sharing", "partition", "cycles", "cycles"}[r.Intn(10)]
 	g.topo = r.Intn(5) < 2
-	if g.style == "sharing" {
-		return g.sharingCase()
+	if g.style == "sharing" || g.style == "cycles" {
+		var label string
+		var in []int64
+		if g.style == "sharing" {
+			label, in = g.sharingCase()
+		} else {
+			label, in = g.cyclesCase()
+		}
+		if r.Intn(3) == 0 && in[1] != 11 { // bin-packing strategy: fractional pods pile up on one device
+			in = append([]int64{in[0] + 1, 11, 4}, in[1:]...)
+			label += "+most"
+		}
+		return label, in
 	}
 	if g.style == "partition" {
 		return g.partitionCase()
 	}
-	if r.Intn(12) == 0 {
-		// the ordinary styles occasionally run on a node that carries a partition table
+	if k := r.Intn(12); k < 3 {
+		// the ordinary styles occasionally run on a node that carries a partition table (without the
+		// Honor policy: no map-order dependent status when several types fail) and / or with the
+		// MostAllocated scoring strategy
 		label, in := g.ordinaryCase()
-		kind := int64(2) // without the Honor policy: no map-order dependent status when several types fail
+		kind := []int64{2, 4, 6}[k]
 		in = append([]int64{in[0] + 1, 11, kind}, in[1:]...)
 		return fmt.Sprintf("%s+kind%d", label, kind), in
 	}
@@ -1076,6 +1447,10 @@ func TestVerifC07(t *testing.T) {
 		t.Fatal(err)
 	}
 	vtC07Plugin = p.(*Plugin)
+	vtC07Scorers[0] = vtC07Plugin.scorer
+	margs := getDefaultArgs()
+	margs.ScoringStrategy.Type = schedulerconfig.MostAllocated
+	vtC07Scorers[1] = deviceResourceStrategyTypeMap[schedulerconfig.MostAllocated](margs)
 	ni, err := suit.Framework.SnapshotSharedLister().NodeInfos().Get(vtC07Node)
 	if err != nil {
 		t.Fatal(err)
